@@ -651,3 +651,20 @@ def split_write_rhs_reads_lhs(r):
     if not isinstance(rhs, LoopIR.BinOp):
         return False
     return any(rd.name == s.name for rd in _all_reads(rhs.rhs)) or any(rd.name == s.name for rd in _all_reads(rhs.lhs))
+
+
+# ---------------------------------------------------------------------------
+# C05
+
+
+def replace_ignores_callee_assertions(r):
+    """replace() never checks the callee's assertions at the new call site"""
+    return r.get("op") == "replace" and r.get("kind") == "call_pred"
+
+
+def replace_block_longer_than_callee(r):
+    """(fixed) replace of a block longer than the callee body deleted the extra statements"""
+    if r.get("op") != "replace":
+        return False
+    p, op, args, env = _ctx(r)
+    return len(args[0]._impl) > len(args[1]._loopir_proc.body)
